@@ -5,7 +5,7 @@ name, src, caught = sys.argv[1], sys.argv[2], sys.argv[3]
 dst = os.path.join("/verif/seeded", name)
 os.makedirs(dst, exist_ok=True)
 for f in os.listdir(src):
-    if f in ("patch.diff", "meta.json", "confirm.json") or f.startswith("demo.") and not f.endswith(".log"):
+    if f in ("patch.diff", "patch.head.diff", "meta.json", "confirm.json") or f.startswith("demo.") and not f.endswith(".log"):
         shutil.copy(os.path.join(src, f), dst)
 m = json.load(open(os.path.join(dst, "meta.json")))
 c = json.load(open(os.path.join(dst, "confirm.json")))
